@@ -170,17 +170,32 @@ theorem schedRanges_takes (bs : List Block) (h : Offs 0 bs) (hne : bs ≠ []) (r
     rw [takeSum_append, a2, b2]
     simp [numRows, Rg.len]
 
+theorem takeSum_nil_of_empty (is : List Instr) (h : is.isEmpty = true) : takeSum is = 0 := by
+  cases is with
+  | nil => rfl
+  | cons a t => simp at h
+
 /-- **`schedule_instructions` accounts for every requested row** (the `debug_assert_eq!` of
     `MiniBlockScheduler::schedule_ranges`, and the `num_rows` the page decoder is created with): for every
-    repetition index and all in-page ranges within the page's rows the call does not panic and
+    repetition index and all non-empty in-page ranges within the page's rows the call does not panic and
     `Σ rows_to_take = Σ (end - start)` — also after merging adjacent instructions -/
 theorem scheduleInstructions_takes (bs : List Block) (h : Offs 0 bs) (hne : bs ≠ []) (rs : List Rg)
-    (hr : ∀ r ∈ rs, r.s ≤ r.e ∧ r.e ≤ startsSum bs) :
+    (hr : ∀ r ∈ rs, r.s < r.e ∧ r.e ≤ startsSum bs) :
     ∃ is, scheduleInstructions bs rs = some is ∧ takeSum is = numRows rs := by
-  obtain ⟨is, e1, e2⟩ := schedRanges_takes bs h hne rs hr
-  refine ⟨if rs.length > 1 then mergeInstrs is else is, by simp only [scheduleInstructions, e1], ?_⟩
+  obtain ⟨is, e1, e2⟩ := schedRanges_takes bs h hne rs (fun r hx => ⟨by have := (hr r hx).1; omega, (hr r hx).2⟩)
   by_cases hl : rs.length > 1
-  · rw [if_pos hl, mergeInstrs_takes, e2]
-  · rw [if_neg hl, e2]
+  · have hpos : 0 < numRows rs := by
+      cases rs with
+      | nil => simp at hl
+      | cons r t =>
+        have := (hr r (by simp)).1
+        simp only [numRows, List.map_cons, List.sum_cons, Rg.len]; omega
+    have hne' : is.isEmpty = false := by
+      cases hb : is.isEmpty with
+      | false => rfl
+      | true => have := takeSum_nil_of_empty is hb; omega
+    refine ⟨mergeInstrs is, by simp only [scheduleInstructions, e1, hl, if_true, hne', Bool.false_eq_true, if_false], ?_⟩
+    rw [mergeInstrs_takes, e2]
+  · exact ⟨is, by simp only [scheduleInstructions, e1, hl, if_false], e2⟩
 
 end LanceModel.C25
